@@ -32,6 +32,11 @@ def run_property(prop: str, tier: str, prog: Program | None = None) -> Result:
         tb = traceback.extract_tb(e.__traceback__)[-1]
         res.error(f"checker crashed: {type(e).__name__}: {e} at "
                   f"{tb.filename.split('/')[-1]}:{tb.lineno}")
+    try:
+        from . import caches
+        caches.report(prog, res, prop)
+    except AnalysisError as e:
+        res.error(str(e))
     _downgrade_opaque(prog, res)
     return res
 
@@ -46,6 +51,9 @@ def _downgrade_opaque(prog: Program, res: Result) -> None:
         return
     keep = []
     for f in res.findings:
+        if f.rule.startswith("R-CACHE-") or f.rule == "R-MEMO-INVALIDATE":
+            keep.append(f)
+            continue
         path, _, line = f.where.rpartition(":")
         try:
             fi = prog.function_at(path, int(line))
